@@ -127,10 +127,11 @@ func cross(ls, os [][]int) [][2][]int {
 
 // per-chain flags
 const (
-	fLite    = 1 << iota // override-pair grids: reduced path set on reusable handles, FindInBatches into []Item only
-	fHandles             // also run the read paths on reusable Session / WithContext handles
-	fChain               // also run the "read chained on a finisher's return value" cases
-	fSeq                 // also run the "two reads on the same reusable handle" pairs
+	fLite     = 1 << iota // override-pair grids: reduced path set on reusable handles, FindInBatches into []Item only
+	fHandles              // also run the read paths on reusable Session / WithContext handles
+	fChain                // also run the "read chained on a finisher's return value" cases
+	fSeq                  // also run the "two reads on the same reusable handle" pairs
+	fCallback             // also run FindInBatches with a read on the same handle inside the callback
 )
 
 func inInts(v int, set []int) bool {
@@ -177,6 +178,13 @@ func enumerate(tier string) (chains []Chain, flags []uint8, N int, gridSizes map
 		{name: "B:pairs", sizes: sizesB, conds: []int{0, 3}, orders: []int{0, 1},
 			lo: append(cross(lp, smallO), cross(smallL, op)...), layouts: []int{0, 1, 2, 3}},
 	}
+	// D: a chain that carries three orderings on which all rows tie (order-by column
+	// slice of length 3, capacity 4): only the key ordering added by First / Last /
+	// FindInBatches decides; run fresh, on reusable handles and with reads inside the
+	// FindInBatches callback
+	gridD := grid{name: "D:three-orderings", sizes: seqInts(0, N), conds: []int{0, 3}, orders: []int{orderTies},
+		lo: cross(singles(limitVals), singles(offsetVals)), layouts: []int{0}}
+	grids = append([]grid{grids[0], gridD}, grids[1:]...) // D runs right after A, before the bulky pair grids
 	if tier == "thorough" {
 		// C: pairs of both kinds against each other
 		grids = append(grids, grid{name: "C:pairs-x-pairs", sizes: []int{N}, conds: []int{0}, orders: []int{1},
@@ -212,8 +220,11 @@ func enumerate(tier string) (chains []Chain, flags []uint8, N int, gridSizes map
 								}
 								one := func(vs []int, set []int) bool { return len(vs) == 0 || inInts(vs[0], set) }
 								if lay == 0 && inInts(n, seqSizes) && inInts(cd, []int{0, 3}) && one(lo[0], seqL) && one(lo[1], seqO) {
-									f |= fSeq
+									f |= fSeq | fCallback
 								}
+							}
+							if strings.HasPrefix(g.name, "D:") {
+								f = fHandles | fCallback
 							}
 							flags = append(flags, f)
 							gridSizes[g.name]++
@@ -282,6 +293,8 @@ type stats struct {
 	ctxCases        int64 // single reads on a WithContext handle
 	seqCases        int64 // two reads on the same reusable handle
 	chainCases      int64 // second read chained on the first finisher's return value
+	callbackCases   int64 // FindInBatches with a read on the same handle inside the callback
+	callbackMulti   int64 // ... that delivered >= 2 batches (>= 2 inner reads interleaved with the batch queries)
 	countThenPage   int64 // Count, then Limit/Offset, then a read, on Count's return value, window non-empty
 }
 
@@ -305,6 +318,12 @@ func (ck *checker) activePaths(c Chain) []int {
 		}
 		if p.NoSchema && c.Order == 2 {
 			continue
+		}
+		if orders[c.Order].Ties {
+			// only finishers that add the key ordering themselves, and Count
+			if !(p.Kind == kFIB || p.Kind == kCount || (p.Kind == kFinder && !strings.Contains(p.Name, "Take"))) {
+				continue
+			}
 		}
 		out = append(out, i)
 	}
@@ -363,7 +382,7 @@ func batchFor(name string) int {
 // the differential comparison of FindInBatches.
 func referenceFind(e *h.Env, c Chain) ([]string, bool) {
 	rc := c
-	if rc.Order == 0 {
+	if rc.Order == 0 || orders[rc.Order].Ties {
 		rc.Order = 1
 	}
 	out := execCase(e, Case{Chain: rc, Path: paths[0].Name}, false)
@@ -560,6 +579,29 @@ func (ck *checker) evalChain(w *worker, c Chain, flags uint8) {
 		}
 	}
 
+	// ---- FindInBatches with a read on the same reusable handle inside the callback --
+	if flags&fCallback != 0 {
+		inners := []string{"First(&Item)", "Last(&Item)", "Model.Last(&map)", "Model.Count"}
+		if !orders[c.Order].Ties {
+			inners = append(inners, "Find(&[]Item)", "Take(&Item)", `Model.Pluck("id", &[]uint)`)
+		}
+		for _, hk := range []string{hSession, hCtx} {
+			for _, in := range inners {
+				for _, b := range []int{1, 2, 3, ck.N + 1} {
+					cs := Case{Chain: c, Mode: mInCB, Handle: hk, Path: "FindInBatches(&[]Item)", Batch: b, Inner: in}
+					if hk == hCtx {
+						cs.Path = "FindInBatches(&[]*Item)"
+					}
+					o := ck.evalCase(w, e, cs, ex, ref, refOK)
+					atomic.AddInt64(&st.callbackCases, 1)
+					if len(o.batches) >= 2 {
+						atomic.AddInt64(&st.callbackMulti, 1)
+					}
+				}
+			}
+		}
+	}
+
 	// ---- two reads started from the same reusable handle ------------------------
 	if flags&fSeq != 0 {
 		for _, hk := range []string{hSession, hCtx} {
@@ -589,7 +631,7 @@ func main() {
 			os.Exit(3)
 		}
 		pi := pathIndex(c.Path)
-		if pi < 0 || (c.First != "" && pathIndex(c.First) < 0) {
+		if pi < 0 || (c.First != "" && pathIndex(c.First) < 0) || (c.Inner != "" && pathIndex(c.Inner) < 0) {
 			fmt.Fprintf(os.Stderr, "unknown path %q / %q\n", c.Path, c.First)
 			os.Exit(3)
 		}
@@ -623,7 +665,7 @@ func main() {
 
 	chains, flags, N, gridSizes := enumerate(args.Tier)
 	ck.N = N
-	budget := 85 * time.Second
+	budget := 90 * time.Second
 	if args.Tier == "thorough" {
 		budget = 9 * time.Minute
 	}
@@ -701,6 +743,8 @@ func main() {
 		floor("two_reads_same_handle_cases", st.seqCases, 5000)
 		floor("read_chained_on_return_value_cases", st.chainCases, 10000)
 		floor("count_then_page_cases", st.countThenPage, 5000)
+		floor("fib_callback_read_cases", st.callbackCases, 5000)
+		floor("fib_callback_read_cases_multi_batch", st.callbackMulti, 1000)
 		floor("distinct_outcomes", int64(outcomes.Len()), 200)
 		floor("distinct_batch_shapes", int64(shapes.Len()), 20)
 	}
@@ -716,35 +760,37 @@ func main() {
 	run.Assume("reads chained on a finisher's return value are checked only for the pairs gorm documents: Count -> any read ('total + page') and Find -> Count. Left out as ill-defined: chaining on the handle returned by First/Take/Last (it keeps the finder's own LIMIT 1 and ORDER BY), Pluck/Select-Scan (keeps the SELECT list), Scan/Rows (no reusable handle), FindInBatches (keeps its ORDER BY and the last cursor condition), Find -> Find/First (keeps Dest-derived state); a fresh (non-Session) chain used for two separate statements (documented as not reusable)")
 	run.Assume("outside the alphabet: user orderings contradicting key order for FindInBatches; Limit(0)/Offset(0) as the later value of an override pair; FindInBatches into maps; Group/Distinct/Joins; callbacks returning errors")
 	run.Finish(map[string]interface{}{
-		"evaluations":                        st.evaluations,
-		"distinct_nontrivial":                ck.distinct.Len(),
-		"rule":                               fmt.Sprintf("N=%d. chains = table size x condition x ordering x sequence of Limit/Offset calls, grids %v (A: every single Limit in {absent,0,1..N+1,-1} x every single Offset in {absent,0..N,-1} x both call orders x all sizes 0..N x all conditions x 3 orderings; B: every override/cancel pair of one kind x a small set of the other kind x 4 call layouts; C (thorough): limit pairs x offset pairs, alternating call layout). Every chain is executed through every read path (%d path variants) and FindInBatches with every batch size 1..N+1 into []Item and (grid A) []*Item; Besides fresh chains, grid A chains (orderings none / Order(id); quick: one call order) are also run from reusable handles chain.Session(&gorm.Session{}) (all paths) and chain.WithContext(ctx) (14 representative paths), pair grids from a Session handle (6 representative paths; quick runs the pair grids with the representative paths only). Two-read cases: (1) tx := chain[.Session|.WithContext].Count(&n), then a read on tx — with the Limit/Offset calls made before Count (6 reads) and after Count on the returned handle, 'total + page' (14 reads) — and Find(&[]Item|&[]*Item|&[]map) followed by Count on the returned handle, for every single limit x offset of grid A; (2) base := chain.Session|WithContext; base -> first read (10 kinds); base -> second read (every path), on a sub-grid; both reads are judged against the same reference window. evaluations = cases executed (a case = one read, or a pair of reads). A chain is non-trivial when its expected window is non-empty and smaller than the table (condition, limit or offset really cut something); distinct = distinct such chains", N, gridSizes, len(paths)),
-		"samples":                            ck.samples.List(),
-		"exhaustive":                         exhaustive,
-		"chains":                             st.chains,
-		"chains_enumerated":                  len(chains),
-		"table_sizes":                        N + 1,
-		"path_variants":                      len(paths),
-		"distinct_outcomes":                  outcomes.Len(),
-		"distinct_batch_shapes":              shapes.Len(),
-		"fib_calls":                          st.fibCalls,
-		"fib_multi_batch":                    st.fibMultiBatch,
-		"fib_partial_last_batch":             st.fibPartialLast,
-		"fib_limit_cuts_mid_batch":           st.fibLimitCuts,
-		"fib_offset_beyond_end":              st.fibOffsetBeyond,
-		"fib_offset_inside":                  st.fibOffsetInside,
-		"finder_found":                       st.finderFound,
-		"finder_not_found":                   st.finderNotFound,
-		"count_checked_against_find":         st.countChecked,
-		"override_chains":                    st.overrideChains,
-		"cancel_chains":                      st.cancelChains,
-		"multi_row_path_checks":              st.multiChecked,
-		"single_record_dest_checks":          st.singleChecked,
-		"primitive_dest_checks":              st.primChecked,
-		"session_handle_cases":               st.sessionCases,
-		"context_handle_cases":               st.ctxCases,
-		"two_reads_same_handle_cases":        st.seqCases,
-		"read_chained_on_return_value_cases": st.chainCases,
-		"count_then_page_cases":              st.countThenPage,
+		"evaluations":                         st.evaluations,
+		"distinct_nontrivial":                 ck.distinct.Len(),
+		"rule":                                fmt.Sprintf("N=%d. chains = table size x condition x ordering x sequence of Limit/Offset calls, grids %v (A: every single Limit in {absent,0,1..N+1,-1} x every single Offset in {absent,0..N,-1} x both call orders x all sizes 0..N x all conditions x 3 orderings; B: every override/cancel pair of one kind x a small set of the other kind x 4 call layouts; C (thorough): limit pairs x offset pairs, alternating call layout). Every chain is executed through every read path (%d path variants) and FindInBatches with every batch size 1..N+1 into []Item and (grid A) []*Item; Besides fresh chains, grid A chains (orderings none / Order(id); quick: one call order) are also run from reusable handles chain.Session(&gorm.Session{}) (all paths) and chain.WithContext(ctx) (14 representative paths), pair grids from a Session handle (6 representative paths; quick runs the pair grids with the representative paths only). Two-read cases: (1) tx := chain[.Session|.WithContext].Count(&n), then a read on tx — with the Limit/Offset calls made before Count (6 reads) and after Count on the returned handle, 'total + page' (14 reads) — and Find(&[]Item|&[]*Item|&[]map) followed by Count on the returned handle, for every single limit x offset of grid A; (2) base := chain.Session|WithContext; base -> first read (10 kinds); base -> second read (every path), on a sub-grid; both reads are judged against the same reference window; (3) base -> FindInBatches (batch sizes 1,2,3,N+1) with a read on base (First/Last/Count, and Find/Take/Pluck where the chain determines the order) issued inside every callback: batches must stay exact and every inner read is judged. Grid D: chains carrying three orderings on which all rows tie (only First/Last/FindInBatches/Count are run there), fresh, on reusable handles and with reads inside the callback. evaluations = cases executed (a case = one read, or a pair of reads). A chain is non-trivial when its expected window is non-empty and smaller than the table (condition, limit or offset really cut something); distinct = distinct such chains", N, gridSizes, len(paths)),
+		"samples":                             ck.samples.List(),
+		"exhaustive":                          exhaustive,
+		"chains":                              st.chains,
+		"chains_enumerated":                   len(chains),
+		"table_sizes":                         N + 1,
+		"path_variants":                       len(paths),
+		"distinct_outcomes":                   outcomes.Len(),
+		"distinct_batch_shapes":               shapes.Len(),
+		"fib_calls":                           st.fibCalls,
+		"fib_multi_batch":                     st.fibMultiBatch,
+		"fib_partial_last_batch":              st.fibPartialLast,
+		"fib_limit_cuts_mid_batch":            st.fibLimitCuts,
+		"fib_offset_beyond_end":               st.fibOffsetBeyond,
+		"fib_offset_inside":                   st.fibOffsetInside,
+		"finder_found":                        st.finderFound,
+		"finder_not_found":                    st.finderNotFound,
+		"count_checked_against_find":          st.countChecked,
+		"override_chains":                     st.overrideChains,
+		"cancel_chains":                       st.cancelChains,
+		"multi_row_path_checks":               st.multiChecked,
+		"single_record_dest_checks":           st.singleChecked,
+		"primitive_dest_checks":               st.primChecked,
+		"session_handle_cases":                st.sessionCases,
+		"context_handle_cases":                st.ctxCases,
+		"two_reads_same_handle_cases":         st.seqCases,
+		"read_chained_on_return_value_cases":  st.chainCases,
+		"count_then_page_cases":               st.countThenPage,
+		"fib_callback_read_cases":             st.callbackCases,
+		"fib_callback_read_cases_multi_batch": st.callbackMulti,
 	})
 }
